@@ -54,7 +54,7 @@ def _asc(d, arr_along_last):
     return d, a
 
 
-def equalize_case(M, lens, kinds, shapes, axes, fill=0, offsets=None, stack=None, concrete=None):
+def equalize_case(M, lens, kinds, shapes, axes, fill=0, offsets=None, stack=None, concrete=None, scalar_axes=False):
     from dreye.api.domain import equalize_domains
     nd = len(lens)
     offsets = offsets or [0.0] * nd
@@ -72,7 +72,8 @@ def equalize_case(M, lens, kinds, shapes, axes, fill=0, offsets=None, stack=None
     if stack is not None:
         kw = dict(stack_axis=stack[0], concatenate=stack[1])
     try:
-        new_dom, new_arrs = equalize_domains(list(doms), list(arrs), axes=list(axes), fill_value=fill, **kw)
+        # `axes` may be one integer for all arrays (documented): passed as such when the case says so
+        new_dom, new_arrs = equalize_domains(list(doms), list(arrs), axes=(axes[0] if scalar_axes else list(axes)), fill_value=fill, **kw)
     except ValueError as e:
         if "Cannot equalize" not in str(e):
             raise
@@ -257,6 +258,10 @@ def cases(tier, seed):
                    ("[10,8,..,0] / [1,4,7]", ([10, 8, 6, 4, 2, 0], [1, 4, 7]))):
         add(f"integer-typed domains {nm}", "equalize_case", lens=[len(c) for c in cs], kinds=["asc" if c[0] < c[-1] else "desc" for c in cs],
             shapes=[(len(c),) for c in cs], axes=[0, 0], concrete=[list(c) for c in cs])
+    for ax in (0, 1, -1):
+        shp = [(3, 2), (4, 2)] if ax == 0 else [(2, 3), (2, 4)]
+        add(f"two domains 3+4 rank2, axes given as the single integer {ax}", "equalize_case", lens=[3, 4], kinds=["asc", "asc"], shapes=shp, axes=[ax, ax], offsets=[0.0, 0.4], scalar_axes=True)
+    add("two domains 3+3 square arrays, axes given as the single integer 0", "equalize_case", lens=[3, 3], kinds=["asc", "desc"], shapes=[(3, 3), (3, 3)], axes=[0, 0], offsets=[0.0, 0.3], scalar_axes=True)
     add("identical domains n=3", "same_domain_case", n=3)
     add("estimator capture foreign domain 3+3 asc", "capture_case", nfd=3, nsd=3, kind_s="asc")
     add("estimator capture foreign domain 3+2 desc", "capture_case", nfd=3, nsd=2, kind_s="desc")
